@@ -467,17 +467,16 @@ fn fs_alloc_check(ft: FatType, mode: u8, variant: u8, hint: Option<u32>, has_pre
             }
             assert!(zeroed == if zero { cs } else { 0 });
             assert!(fs.current_status_flags.get().dirty);
-            kani::cover!(has_count);
-            kani::cover!(!has_count);
         }
         Err(Error::NotEnoughSpace) => {
             assert!(free_before == 0);
             assert!(d.fat0 == (if act == 0 { old_act } else { old_other }) && d.fat1 == (if act == 0 { old_other } else { old_act }) && d.nw == 0);
             assert!(info2.free_cluster_count == if has_count { Some(0) } else { None });
-            kani::cover!(true);
         }
         Err(_) => assert!(false),
     }
+    kani::cover!(has_count);
+    kani::cover!(!has_count);
 }
 /// C05/C10/C11/C12: FileSystem::alloc_cluster through the real FAT slice ("glue" level: one harness per concrete
 /// configuration of table contents / mirroring mode / hint / predecessor / zeroing, with the cached counters and
